@@ -179,6 +179,33 @@ let () =
                List.iter (fun ((c, p), s) -> Printf.printf " %s<%s@%d" (show_pair c) (show_pair p) (int_of_n s)) f.sf_parents;
                print_newline ()
              end)
+    | "amb" ->
+        (* amb <B|E> <prog> : ok <table size> | open <table size> (table not closed) | amb <kind> <symbol> <cfg> | <input symbols...> *)
+        let syms = (match next () with "B" -> bytes_syms | "E" -> all_syms_e | s -> failwith ("bad syms " ^ s)) in
+        let p = parse_prog () in
+        let ((closed, w), n) = unambig_run syms p in
+        (match w with
+         | None -> Printf.printf "%s %d\n" (if closed then "ok" else "open") (int_of_nat n)
+         | Some ((k1, s), kind) ->
+             let kname = (match kind with AmbOptional -> "optional" | AmbOpenMatch -> "open-match" | AmbWait -> "wait" | AmbCaseTwo -> "case-two-clauses"
+                                         | AmbCasePrefix -> "case-prefix" | AmbGreedyTie -> "greedy-tie") in
+             (* breadth-first search for an input that reaches a configuration with this ambiguity *)
+             let seen = ref [] in
+             let mem k = List.exists (fun k' -> cfg_eqb k k') !seen in
+             let q = Queue.create () in
+             List.iter (fun k -> if not (mem k) then (seen := k :: !seen; Queue.add (k, []) q)) (succs_of (start_tree p) []);
+             let found = ref None in
+             while !found = None && not (Queue.is_empty q) do
+               let (k, path) = Queue.pop q in
+               (match amb_of_cfg ref_fuel syms k with
+                | Some _ -> found := Some path
+                | None ->
+                    List.iter (fun sy ->
+                      List.iter (fun o -> List.iter (fun k2 -> if not (mem k2) then (seen := k2 :: !seen; Queue.add (k2, sy :: path) q)) (succs_of o [])) (options k sy)) syms)
+             done;
+             Printf.printf "amb %s %d %s |" kname (int_of_n s) (show_cfg k1);
+             (match !found with Some path -> List.iter (fun sy -> Printf.printf " %d" (int_of_n sy)) (List.rev path) | None -> print_string " ?");
+             print_newline ())
     | "refdbg" ->
         (* refdbg <B|E> <prog> <dfa> <n> (<cfg idx> <state> <sym>)...  : print the option trees and the machine tree *)
         let syms = (match next () with "B" -> bytes_syms | "E" -> all_syms_e | s -> failwith ("bad syms " ^ s)) in
